@@ -630,8 +630,15 @@ def execute_history_c12(spec, camp):
                 for j, n in enumerate(sorted(sel)):
                     body, indent, _ = sel[n]
                     # people write the markers in different comment styles, with text after the name
-                    style = (len(n) + j + cycle) % 4
-                    if style == 0:
+                    style = (len(n) + j + cycle) % 6
+                    if style in (4, 5):
+                        # any comment leader will do: the reader looks for the words, not for the
+                        # leader (Lua "--", fixed-form Fortran "C" / "*" in column one, ";", "REM")
+                        lead = [["--", ";;", "REM"], ["C    ", "*", "c"]][1 if lang == "f" else 0][(len(n) + cycle) % 3]
+                        if style == 5:
+                            lead = ["--", "%", "::"][(len(n) + cycle) % 3]
+                        b1, e1 = "%s %s %s" % (lead, BEGIN, n), "%s %s %s" % (lead, END, n)
+                    elif style == 0:
                         b1, e1 = "%s %s %s" % (COMMENT[lang], BEGIN, n), "%s %s %s" % (COMMENT[lang], END, n)
                     elif style == 1 and lang != "f":
                         b1, e1 = "/* %s %s */" % (BEGIN, n), "/* %s %s */" % (END, n)
